@@ -285,6 +285,13 @@ def index_num(ex, base: Num, idx, node):
             else:
                 new_idx.append(c)
         idx = new_idx
+    # an element of a broadcast scalar (np.asarray(number).reshape(-1), np.full(k, number)): the scalar itself
+    if base.nf is not None and base.arr is None and base.cond is None and shape is not None and len(idx) == len(shape) and idx and all(isinstance(c, Num) and c.shape == () and c.cond is None and c.dtype != "bool" for c in idx):
+        from .nf import atoms_of as _atoms_of
+
+        ats = _atoms_of(base.nf, deep=False).values()
+        if ats and all(ex.atom_shapes.get(x.key) == () for x in ats):
+            return Num(base.nf, (), base.dtype)
     # a COLSTACK projected on columns
     a = single_atom(base.nf) if base.nf is not None else None
     if base.cond is not None and base.nf is None:
@@ -721,6 +728,8 @@ def _len(ex, args, kwargs, node):
     if isinstance(v, RangeV):
         return Num(app("rangelen", v.lo.nf, v.hi.nf, v.step.nf), (), "int")
     if isinstance(v, DictV):
+        if getattr(v, "opaque", False):
+            return Num(app("dictlen", valkey(v)), (), "int")
         return Num(NF.const(len(v.items)), (), "int")
     if is_raw(v):
         return Num(sym("n"), (), "int", meta={"kind": "COUNT", "len_of": v})
@@ -985,6 +994,10 @@ def _isinstance(ex, args, kwargs, node):
 def _isinst(ex, v, t):
     if isinstance(t, ClassV):
         if isinstance(v, ObjV) and v.cls is not None:
+            if getattr(v, "abstract", False) and t.cls is not v.cls and ex.P.is_subclass(t.cls, v.cls) and not ex.P.is_subclass(v.cls, t.cls):
+                # an arbitrary object of the base class may well be an instance of this particular subclass
+                ex.emit("abstract_isinstance", None, obj=v, cls=t.cls)
+                return None
             return ex.P.is_subclass(v.cls, t.cls)
         if isinstance(v, OpaqueV):
             return None
@@ -2008,6 +2021,8 @@ def call_method(ex, recv, name, args, kwargs, node, frame):
         ex.emit("unmodelled", node, callee=f"{recv.cls.qualname}.{name}", args=args, kwargs=kwargs)
         return OpaqueV(f"{recv.cls.name}.{name}()")
     if isinstance(recv, DictV):
+        if getattr(recv, "opaque", False):
+            return OpaqueV(f"{valkey(recv)}.{name}()", {"dict_method": name, "recv": recv})
         if name == "items":
             return TupleV([TupleV([k, v]) for k, v in recv.items])
         if name == "keys":
@@ -2248,7 +2263,14 @@ def num_method(ex, v: Num, name, args, kwargs, node):
         dt = _dtype_of(args[0]) if args else None
         ex.emit("cast", node, value=v, dtype=dt, how="astype", target=args[0] if args else None)
         sg = _signed_target(args[0]) if args else None
-        return Num(v.nf, v.shape, dt or v.dtype, v.pytype, cond=v.cond, meta=dict(v.meta, signed=sg) if sg is not None else dict(v.meta))
+        meta = dict(v.meta, signed=sg) if sg is not None else dict(v.meta)
+        cp = kwargs.get("copy")
+        if cp is None or (isinstance(cp, Num) and cp.cond is not None and cp.cond.t == ("const", True)):
+            # astype copies unless copy=False is passed: a store into the result does not reach the operand
+            meta.pop("foreign", None)
+            meta.pop("alias_of", None)
+            meta["fresh"] = True
+        return Num(v.nf, v.shape, dt or v.dtype, v.pytype, cond=v.cond, meta=meta)
     if name in ("argmax", "argmin"):
         return EXT["numpy." + name](ex, [v] + list(args), kwargs, node)
     if name in ("any", "all"):
